@@ -13,9 +13,9 @@ import (
 
 // Helpers added for the HTTP/3 (C33–C35) and DNS (C36, C37) rule sets.
 
-// CallsParam selects calls through the i-th parameter (receiver excluded) of
+// CallsOfParam selects calls through the i-th parameter (receiver excluded) of
 // the enclosing function, i.e. invocations of a callback argument.
-func CallsParam(i int) Sel {
+func CallsOfParam(i int) Sel {
 	return Sel{fmt.Sprintf("call of parameter $%d", i), func(p *Prog, fn *ssa.Function) []ssa.Instruction {
 		var out []ssa.Instruction
 		eachInstr(fn, func(in ssa.Instruction) {
@@ -24,19 +24,6 @@ func CallsParam(i int) Sel {
 				return
 			}
 			if pa, ok := ci.Common().Value.(*ssa.Parameter); ok && paramName(pa) == "$"+strconv.Itoa(i) {
-				out = append(out, in)
-			}
-		})
-		return out
-	}}
-}
-
-// MapUpdates selects map updates whose map renders as term.
-func MapUpdates_h3dns(term string) Sel {
-	return Sel{"map update " + term, func(p *Prog, fn *ssa.Function) []ssa.Instruction {
-		var out []ssa.Instruction
-		eachInstr(fn, func(in ssa.Instruction) {
-			if mu, ok := in.(*ssa.MapUpdate); ok && Term(mu.Map) == term {
 				out = append(out, in)
 			}
 		})
@@ -92,8 +79,8 @@ func (c *Ctx) EdgeWhere(spec string, under ...string) Sel {
 	}}
 }
 
-// Between: from every `from` site, every path to a `target` site passes a `via` site.
-func (c *Ctx) Between(fnName string, from, target, via Sel, inclusive bool) bool {
+// PassBetween: from every `from` site, every path to a `target` site passes a `via` site.
+func (c *Ctx) PassBetween(fnName string, from, target, via Sel, inclusive bool) bool {
 	rule := "pass-between"
 	construct := fmt.Sprintf("%s: from [%s] to [%s] always via [%s]", fnName, from.Name, target.Name, via.Name)
 	fn, ins := c.sites(rule, fnName, from)
@@ -157,7 +144,7 @@ func errCarriers(call *ssa.Call, idx int) map[ssa.Value]bool {
 // ErrChecked: the error result #idx (idx<0: the single result) of every
 // selected call is compared with nil before any `sink` site can be reached from
 // the call, and no sink is reachable from the branch on which it is non-nil.
-func (c *Ctx) ErrChecked_h3dns(fnName string, calls Sel, idx int, sinks Sel) bool {
+func (c *Ctx) ErrChecked(fnName string, calls Sel, idx int, sinks Sel) bool {
 	rule := "error-checked"
 	construct := fmt.Sprintf("%s: error of [%s] tested before [%s]", fnName, calls.Name, sinks.Name)
 	fn, ins := c.sites(rule, fnName, calls)
@@ -724,8 +711,8 @@ func (p *Prog) HoldsAt(in ssa.Instruction, spec string, exact bool) bool {
 	return holds(FactsAtInstr(in), a, exact)
 }
 
-// EachInstr exposes the instruction walk to property files.
-func EachInstr_h3dns(fn *ssa.Function, f func(ssa.Instruction)) { eachInstr(fn, f) }
+// ForEachInstr exposes the instruction walk to property files.
+func ForEachInstr(fn *ssa.Function, f func(ssa.Instruction)) { eachInstr(fn, f) }
 
 // TestOf selects the If instructions that test the atom (either polarity).
 func (c *Ctx) TestOf(spec string) Sel {
